@@ -50,6 +50,10 @@ def run(ctx: Context) -> None:
     ctx.rule("C09d", "the NumPy and the JAX implementation of the Gaussian density-matrix recurrence (_entry_raising_ket / _entry_raising_bra) have the same pivot, initial term, loop summands and divisor (normal forms over abstract states and indices)")
     clause_d(ctx, idx)
     clause_e(ctx, idx)
+    ctx.rule("C09g", "the formula used for traced (abstract) angles in GaussianState.get_phaseshifter_expectation_value is the eager formula in another "
+                     "parametrisation: both exponents are u^dagger T u with the same kernel T (compared through the symbolic inverses of the kernels, "
+                     "diagonal factors commuting among themselves but not with the covariance)")
+    clause_g(ctx, idx)
     ctx.rule("C09f", "the array handed to connector.assign is consumed: under the NumPy connector it is updated in place, under the functional "
                      "connectors it keeps the old content, so after `B = connector.assign(A, ...)` neither A nor an alias of A is read again "
                      "(ownership typestate on the CFG; shape/dtype reads are exempt)")
@@ -879,3 +883,199 @@ def clause_f(ctx: Context, idx) -> None:
                                   "content, with the JAX / TensorFlow connectors it still has the old one, so the connectors compute different results",
                                   norm(n2.stmt)[:160] if not isinstance(n2.stmt, (ast.If, ast.For, ast.While)) else norm(rd))
     ctx.require_floor("C09f connector.assign sites", n_sites, 40)
+
+
+# ================================================================================================ (g)
+
+
+def clause_g(ctx: Context, idx) -> None:
+    import sympy as sp
+    from .. import invalg as ia
+    cls = idx.find_class("piquasso._simulators.gaussian.state", "GaussianState")
+    fn = cls.methods.get("get_phaseshifter_expectation_value")
+    if fn is None:
+        raise AnalysisError("anchor vanished: GaussianState.get_phaseshifter_expectation_value")
+    body = fn.node.body
+    tr_if = next((s_ for s_ in body if isinstance(s_, ast.If) and any(isinstance(c, ast.Call) and (dotted(c.func) or "").split(".")[-1] == "is_abstract"
+                                                                      for c in ast.walk(s_.test))), None)
+    if tr_if is None:
+        raise AnalysisError("C09g: the traced-angles arm (`if connector.is_abstract(...)`) of get_phaseshifter_expectation_value vanished")
+    top_defs: Dict[str, ast.AST] = {}
+    for s_ in body:
+        if isinstance(s_, ast.Assign) and len(s_.targets) == 1 and isinstance(s_.targets[0], ast.Name):
+            top_defs[s_.targets[0].id] = s_.value
+    arm_defs = dict(top_defs)
+    for s_ in ast.walk(tr_if):
+        if isinstance(s_, ast.Assign) and len(s_.targets) == 1 and isinstance(s_.targets[0], ast.Name):
+            arm_defs[s_.targets[0].id] = s_.value
+    phi = sp.Symbol("phi", real=True)
+
+    class Reader:
+        def __init__(self, defs):
+            self.defs = defs
+            self.scalars: Dict[str, sp.Expr] = {}
+
+        def role(self, e) -> Optional[str]:
+            """'S' (covariance), 'u' (displacement), 'angles'"""
+            seen = set()
+            while isinstance(e, ast.Name) and e.id in self.defs and e.id not in seen:
+                seen.add(e.id)
+                e = self.defs[e.id]
+            if isinstance(e, ast.Attribute) and e.attr == "complex_covariance":
+                return "S"
+            if isinstance(e, ast.Attribute) and e.attr == "complex_displacement":
+                return "u"
+            if isinstance(e, ast.Call) and (dotted(e.func) or "").split(".")[-1] in ("array", "asarray") and e.args and isinstance(e.args[0], ast.Name):
+                return "angles"
+            return None
+
+        def scalar(self, e) -> sp.Expr:
+            """entry of a per-mode vector as a function of that mode's angle"""
+            if isinstance(e, ast.Constant):
+                return sp.I * sp.nsimplify(e.value.imag) + sp.nsimplify(e.value.real) if isinstance(e.value, complex) else sp.nsimplify(e.value)
+            if isinstance(e, ast.Name):
+                if self.role(e) == "angles":
+                    return phi
+                if e.id in self.defs:
+                    return self.scalar(self.defs[e.id])
+                raise AnalysisError(f"C09g: free name `{e.id}` in a diagonal (undecided)")
+            if isinstance(e, ast.UnaryOp) and isinstance(e.op, ast.USub):
+                return -self.scalar(e.operand)
+            if isinstance(e, ast.BinOp):
+                a, b = self.scalar(e.left), self.scalar(e.right)
+                return {ast.Add: a + b, ast.Sub: a - b, ast.Mult: a * b, ast.Div: a / b}.get(type(e.op)) if type(e.op) in (ast.Add, ast.Sub, ast.Mult, ast.Div) \
+                    else (_ for _ in ()).throw(AnalysisError(f"C09g: operator in `{norm(e)[:40]}` (undecided)"))
+            if isinstance(e, ast.Call):
+                nm = (dotted(e.func) or "").split(".")[-1]
+                if nm in ("exp", "tan", "sin", "cos") and len(e.args) == 1:
+                    return getattr(sp, nm)(self.scalar(e.args[0]))
+                if nm == "concatenate" and e.args and isinstance(e.args[0], (ast.List, ast.Tuple)) and len(e.args[0].elts) == 2 \
+                        and norm(e.args[0].elts[0]) == norm(e.args[0].elts[1]):
+                    return self.scalar(e.args[0].elts[0])
+            raise AnalysisError(f"C09g: `{norm(e)[:50]}` is outside the fragment read for diagonals (undecided)")
+
+        def mat(self, e) -> "ia.Expr":
+            if isinstance(e, ast.Name):
+                r = self.role(e)
+                if r == "S":
+                    return ia.general()
+                d_ = self.defs.get(e.id)
+                if isinstance(d_, ast.Call) and (dotted(d_.func) or "").split(".")[-1] == "diag" and d_.args:
+                    self.scalars[e.id] = self.scalar(d_.args[0])
+                    return ia.diag(e.id)
+                if d_ is not None:
+                    return self.mat(d_)
+                raise AnalysisError(f"C09g: free name `{e.id}` (undecided)")
+            if isinstance(e, ast.Call) and (dotted(e.func) or "").split(".")[-1] == "diag" and e.args:
+                nm_ = "diag<" + norm(e.args[0])[:30] + ">"
+                self.scalars[nm_] = self.scalar(e.args[0])
+                return ia.diag(nm_)
+            if isinstance(e, ast.BinOp):
+                if isinstance(e.op, ast.MatMult):
+                    return ia.mul(self.mat(e.left), self.mat(e.right))
+                if isinstance(e.op, (ast.Add, ast.Sub)):
+                    return ia.add(self.mat(e.left), self.mat(e.right), 1 if isinstance(e.op, ast.Add) else -1)
+                if isinstance(e.op, ast.Mult):
+                    for k_, o_ in ((e.left, e.right), (e.right, e.left)):
+                        if isinstance(k_, ast.Constant):
+                            return ia.scale(self.mat(o_), self.scalar(k_))
+                if isinstance(e.op, ast.Div) and isinstance(e.right, ast.Constant):
+                    return ia.scale(self.mat(e.left), 1 / self.scalar(e.right))
+            raise AnalysisError(f"C09g: `{norm(e)[:50]}` is outside the matrix fragment (undecided)")
+
+        def inverse_kernel(self, e) -> "ia.Expr":
+            """e = coefficient * conj(u) @ ... @ u  ->  inverse of the kernel between u^dagger and u"""
+            coef = sp.Integer(1)
+            while True:
+                if isinstance(e, ast.UnaryOp) and isinstance(e.op, ast.USub):
+                    coef, e = -coef, e.operand
+                elif isinstance(e, ast.BinOp) and isinstance(e.op, ast.Div) and isinstance(e.right, ast.Constant):
+                    coef, e = coef / self.scalar(e.right), e.left
+                elif isinstance(e, ast.Name) and e.id in self.defs and self.role(e) is None:
+                    e = self.defs[e.id]
+                else:
+                    break
+
+            def flat(x) -> list:
+                if isinstance(x, ast.BinOp) and isinstance(x.op, ast.MatMult):
+                    return flat(x.left) + flat(x.right)
+                if isinstance(x, ast.Call) and (dotted(x.func) or "").split(".")[-1] == "solve" and len(x.args) == 2:
+                    return [("inv", x.args[0])] + flat(x.args[1])
+                if isinstance(x, ast.Call) and (dotted(x.func) or "").split(".")[-1] == "inv" and len(x.args) == 1:
+                    return [("inv", x.args[0])]
+                if isinstance(x, ast.Name) and x.id in self.defs and self.role(x) is None and not (
+                        isinstance(self.defs[x.id], ast.Call) and (dotted(self.defs[x.id].func) or "").split(".")[-1] == "diag"):
+                    return flat(self.defs[x.id])
+                return [x]
+            fs = flat(e)
+            if len(fs) < 3 or not (isinstance(fs[0], ast.Call) and (dotted(fs[0].func) or "").split(".")[-1] in ("conj", "conjugate")
+                                   and fs[0].args and self.role(fs[0].args[0]) == "u") or self.role(fs[-1]) != "u":
+                raise AnalysisError(f"C09g: the exponent `{norm(e)[:60]}` is not of the form conj(u) @ ... @ u (undecided)")
+            mid = fs[1:-1]
+            invs = [i_ for i_, f_ in enumerate(mid) if isinstance(f_, tuple)]
+            if len(invs) != 1:
+                raise AnalysisError("C09g: the kernel does not contain exactly one inverse (undecided)")
+            L, R = ia.ident(), ia.ident()
+            for f_ in mid[:invs[0]]:
+                L = ia.mul(L, self.mat(f_))
+            for f_ in mid[invs[0] + 1:]:
+                R = ia.mul(R, self.mat(f_))
+            M = self.mat(mid[invs[0]][1])
+            inv_k = ia.mul(ia.mul(ia.inv_diag(R), M), ia.inv_diag(L))
+            return ia.scale(inv_k, -1 / coef)   # exponent = -(u^dagger T u): T = -coef * (L inv(M) R)
+
+    def exponent_expr(stmts, defs) -> Optional[ast.AST]:
+        # the argument of exp(...) in the returned value
+        for r_ in [x for st in stmts for x in ast.walk(st) if isinstance(x, ast.Return)]:
+            for c in ast.walk(r_.value):
+                if isinstance(c, ast.Call) and (dotted(c.func) or "").split(".")[-1] == "exp" and c.args and isinstance(c.args[0], ast.Name) \
+                        and c.args[0].id in defs and not isinstance(defs[c.args[0].id], ast.Constant):
+                    d_ = defs[c.args[0].id]
+                    if any(isinstance(y, ast.Call) and (dotted(y.func) or "").split(".")[-1] in ("solve", "inv") for y in ast.walk(d_)) \
+                            or any(isinstance(y, ast.Name) and y.id in defs and any(isinstance(z, ast.Call) and (dotted(z.func) or "").split(".")[-1] in ("solve", "inv")
+                                                                                 for z in ast.walk(defs[y.id])) for y in ast.walk(d_)):
+                        return d_
+        return None
+
+    eager_stmts = [s_ for s_ in body if s_ is not tr_if]
+    e_tr, e_ea = exponent_expr(tr_if.body, arm_defs), exponent_expr(eager_stmts, top_defs)
+    if e_tr is None or e_ea is None:
+        raise AnalysisError("C09g: cannot find the exponents of the two formulas (undecided)")
+    rt, re_ = Reader(arm_defs), Reader(top_defs)
+    kt, ke = rt.inverse_kernel(e_tr), re_.inverse_kernel(e_ea)
+
+    def to_scalar_words(k, reader):
+        out = {}
+        for w, c in k.items():
+            segs = tuple(sp.simplify(sp.prod([reader.scalars[n_] ** p_ for n_, p_ in seg])) for seg in w)
+            key_ = len(w)
+            out.setdefault(key_, []).append((segs, c))
+        return out
+    st, se = to_scalar_words(kt, rt), to_scalar_words(ke, re_)
+    ok = set(st) == set(se)
+    detail = ""
+    if ok:
+        for nseg in st:
+            # words with the general matrix: every diagonal segment must agree on both sides; without it: the sums must agree
+            if nseg == 1:
+                a = sum(c * sg[0] for sg, c in st[nseg])
+                b = sum(c * sg[0] for sg, c in se[nseg])
+                d_ = sp.simplify((a - b).rewrite(sp.exp))
+                if d_ != 0 and sp.simplify(sp.expand_trig(sp.simplify(d_))) != 0:
+                    ok = False
+                    detail = f"diagonal parts differ: {sp.simplify(a)} vs {sp.simplify(b)}"
+            else:
+                def canon(lst):
+                    return sorted((tuple(str(sp.simplify(x)) for x in sg), str(sp.simplify(c))) for sg, c in lst)
+                if canon(st[nseg]) != canon(se[nseg]):
+                    ok = False
+                    detail = f"the covariance enters as {canon(st[nseg])} in the traced formula and as {canon(se[nseg])} in the eager one"
+    else:
+        detail = "different powers of the covariance matrix"
+    key = f"{fn.qualname}|traced and eager exponents have the same kernel"
+    ctx.obligation("C09g", key, ok, f"{ctx.relpath(fn.file)}:{tr_if.lineno}", traced_inverse_kernel=ia.fmt(kt), eager_inverse_kernel=ia.fmt(ke))
+    if not ok:
+        ctx.violation("C09g", key, fn.file, tr_if.lineno,
+                      f"the exponent used for traced angles is u^dagger T u with T^-1 = {ia.fmt(kt)}, the eager formula has T^-1 = {ia.fmt(ke)}: {detail}; "
+                      f"under jax.jit / tf.function the expectation value differs from the eager one (diagonal matrices commute with each other, not "
+                      f"with the covariance matrix)", norm(e_tr)[:120])
